@@ -436,7 +436,7 @@ def c20(run, vc):
         return run.finish()
     # negative controls: each faulty seeding discipline must violate NoReuse / FreshGenerators
     killed = []
-    for m in ("clock", "static", "threadlocal", "fork"):
+    for m in ("clock", "static", "threadlocal", "fork", "cloned", "hedged"):
         rn = vc.tlc("MC_Rng", "MC_Rng_neg_%s.cfg" % m, "c20_neg_" + m, timeout=600)
         if not rn["violated"]:
             raise vc.ToolError("vacuity: faulty variant %s does not violate the invariants" % m)
